@@ -43,15 +43,17 @@ SCENARIOS = [
     ("other-store-busy", ["insert"], "insert"),
     ("insert-with-id-after-idle", ["insert", "insert"], "insert_with_id"),       # the single-event form, the event carries a live id
     ("insert-with-id-after-read", ["insert", "read"], "insert_with_id"),
-    ("bulk-of-100-after-idle", ["insert"], "bulk", 7),     # another store of the process writes / is reopened just before the late write
+    ("bulk-of-100-after-idle", ["insert"], "bulk", 7),
+    ("reopened-then-idle", ["insert", "insert", "read", "reopen_main"], "insert"),     # the first write of a process that opened an existing database
+    ("reopened-then-idle-replace-last", ["insert", "read", "reopen_main"], "replace_last"),     # another store of the process writes / is reopened just before the late write
 ]
 
 
 def plan(tier):
     return dict(workers=16, cases=16 + 4000 if tier == "quick" else 32 + 300_000,
-                time_s=26 if tier == "quick" else 240, floor=16,
+                time_s=45 if tier == "quick" else 300, floor=16,
                 watchdog_s=120 if tier == "quick" else 600,
-                extra=dict(real_rounds=1 if tier == "quick" else 2))
+                extra=dict(real_rounds=2 if tier == "quick" else 3))
 
 
 class VClock:
@@ -163,6 +165,18 @@ def run_schedule(steps, ctx, clock, sleeper):
                     other.refresh()
                 ctx.count("operations_on_another_store_in_between")
                 continue
+            if op["op"] == "reopen_main":
+                # the process that owns the store goes away and another one opens the same file (pending data, if any, is
+                # lost with the old connection - that is C06's subject); opening commits, so the age starts anew
+                if pause > 0:
+                    sleeper(pause)
+                hr.close(remove=False)
+                hr = HistoryRunner("sqlite", path, ctx.tmp)
+                hr.refresh()
+                t_flush = now()
+                prev_kind = "reopen"
+                ctx.count("stores_reopened_mid_schedule")
+                continue
             committed_before = obs.snapshot() or frozenset()
             view_before = hr.view
             pending = len(view_before ^ committed_before)
@@ -239,7 +253,7 @@ def worker(ctx):
     for rnd in range(rounds):
         name, pre, final, *fp = SCENARIOS[(ctx.widx + rnd * 7) % len(SCENARIOS)]
         final_pick = fp[0] if fp else ctx.widx
-        pause = PAUSE if rnd == 0 else PAUSE + 1 + (ctx.widx * 7 + rnd * 5) % 18
+        pause = PAUSE if rnd == 0 else PAUSE + 1 + (ctx.widx * 7 + rnd * 5) % (18 if ctx.tier != "quick" else 3)
         plan_ = [(0, k, i) for i, k in enumerate(pre)] + [(pause, final, final_pick)]
         if name == "other-store-busy":
             plan_ = [(0, "insert", 0), (0, "other:insert", 0), (pause, "other:insert" if ctx.widx % 2 else "other:reopen", 0), (0, "insert", 0)]
@@ -272,7 +286,7 @@ def worker(ctx):
             two_stores = rng.random() < 0.3
             for i in range(rng.randrange(2, 30)):
                 kind = rng.choice(["insert", "insert", "insert", "bulk", "replace", "replace_last", "delete", "upsert", "read", "insert_with_id",
-                                   "delete_missing", "fail:upsert_unbindable", "fail:insert_unserializable", "fail:create_existing",
+                                   "delete_missing", "reopen_main", "fail:upsert_unbindable", "fail:insert_unserializable", "fail:create_existing",
                                    "fail:bulk_unserializable"])
                 if two_stores and rng.random() < 0.3:
                     kind = rng.choice(["other:insert", "other:insert", "other:read", "other:bulk", "other:reopen"])
